@@ -535,3 +535,18 @@ pub(crate) mod helper {
         format!("blk{file_id:06}")
     }
 }
+
+#[cfg(feature = "verif-hooks")]
+impl FreezerFiles {
+    /// verif-hooks: set `max_size` (read by `append` only) and the capacity of the handle LRU
+    pub fn verif_set_limits(&mut self, max_file_size: u64, open_files_limit: usize) {
+        assert!(open_files_limit > 1);
+        self.max_size = max_file_size;
+        self.files.resize(open_files_limit);
+    }
+
+    /// verif-hooks: read-only, ids of the cached read handles, most recently used first
+    pub fn verif_cached_ids(&self) -> Vec<FileId> {
+        self.files.iter().map(|(k, _)| *k).collect()
+    }
+}
